@@ -312,7 +312,8 @@ add('Nor', 'C08', _nary('Nor'), lambda c, v: [~functools.reduce(operator.or_, v)
 def _g2(cls_name):
     def b(parent, cfg, mk):
         w = cfg[0]
-        A = mk('a', w); B = mk('b', w); R = mk('r', w)
+        # optional 2nd element: result wire of a different width (value reduced / zero-extended)
+        A = mk('a', w); B = mk('b', w); R = mk('r', cfg[1] if len(cfg) > 1 else w)
         getattr(P(), cls_name)(parent, 'd', A, B, R)
         return [A, B], [R]
     return b
@@ -322,7 +323,11 @@ _W1_Q = [(w,) for w in [1, 2, 3, 4, 5, 8, 32]]
 _W1_T = [(w,) for w in GRID + SPOT]
 for nm, f in [('And2', lambda a, b: a & b), ('Or2', lambda a, b: a | b), ('Xor2', lambda a, b: a ^ b),
               ('Nand2', lambda a, b: ~(a & b)), ('Nor2', lambda a, b: ~(a | b))]:
-    add(nm, 'C08', _g2(nm), (lambda f: lambda c, v: [f(v[0], v[1])])(f), _W1_Q, _W1_T)
+    # a result wire of another width is only catalogued for the non-inverting gates: for inverting ones the documentation
+    # does not say whether the missing operand bits count as 0 (high result bits 1) -- C01 probes those separately
+    mixed = nm in ('And2', 'Or2')
+    add(nm, 'C08', _g2(nm), (lambda f: lambda c, v: [f(v[0], v[1])])(f), _W1_Q + ([(4, 6), (4, 2), (8, 9)] if mixed else []),
+        _W1_T + ([(4, 6), (4, 2), (8, 9), (8, 16), (3, 1)] if mixed else []))
 
 
 def b_not(parent, cfg, mk):
@@ -333,8 +338,8 @@ def b_not(parent, cfg, mk):
 
 
 # Not/Buf: same-width is the documented use
-add('Not', 'C08', b_not, lambda c, v: [~v[0]], [(w, w) for w in [1, 2, 3, 5, 8, 32]], [(w, w) for w in GRID + SPOT])
-add('Buf', 'C08', _one('Buf'), lambda c, v: [v[0]], [(w, w) for w in [1, 2, 3, 5, 8, 32]], [(w, w) for w in GRID + SPOT])
+add('Not', 'C08', b_not, lambda c, v: [~v[0]], [(w, w) for w in [1, 2, 3, 5, 8, 32]] + [(4, 2)], [(w, w) for w in GRID + SPOT] + [(4, 2), (8, 1)])
+add('Buf', 'C08', _one('Buf'), lambda c, v: [v[0]], [(w, w) for w in [1, 2, 3, 5, 8, 32]] + [(4, 6), (4, 2)], [(w, w) for w in GRID + SPOT] + [(4, 6), (4, 2), (8, 16), (8, 1)])
 
 
 def _red(cls_name):
@@ -563,15 +568,19 @@ add('Bit', 'C08', b_bit, lambda c, v: [v[0] >> c[1]], [(w, k) for w in [1, 3, 8]
 
 
 def b_rng(parent, cfg, mk):
-    w, h, l = cfg
-    A = mk('a', w); R = mk('r', h - l + 1)
+    w, h, l = cfg[:3]
+    # optional 4th element: result wire wider / narrower than the extracted range (the constructor accepts it;
+    # the range value is right-aligned, so it is zero-extended or truncated)
+    A = mk('a', w); R = mk('r', cfg[3] if len(cfg) > 3 else h - l + 1)
     P().Range(parent, 'd', A, h, l, R)
     return [A], [R]
 
 
 add('Range', 'C08', b_rng, lambda c, v: [(v[0] >> c[2]) & ((1 << (c[1] - c[2] + 1)) - 1)],
-    [(w, h, l) for w in [1, 3, 8] for l in range(w) for h in range(l, w)] + [(32, 31, 0), (32, 30, 23), (64, 63, 32)],
-    [(w, h, l) for w in GRID for l in range(w) for h in range(l, w)] + [(w, h, l) for w in SPOT for (h, l) in ((w - 1, 0), (w - 1, w - 1), (w - 2, 1), (w // 2, w // 2 - 1), (0, 0))])
+    [(w, h, l) for w in [1, 3, 8] for l in range(w) for h in range(l, w)] + [(32, 31, 0), (32, 30, 23), (64, 63, 32)]
+    + [(8, 5, 2, 8), (8, 5, 2, 2), (8, 6, 0, 16), (4, 2, 1, 4), (16, 11, 4, 12), (32, 30, 23, 32)],
+    [(w, h, l) for w in GRID for l in range(w) for h in range(l, w)] + [(w, h, l) for w in SPOT for (h, l) in ((w - 1, 0), (w - 1, w - 1), (w - 2, 1), (w // 2, w // 2 - 1), (0, 0))]
+    + [(w, h, l, rw) for w in [4, 8, 9] for l in range(0, w, 2) for h in range(l, w, 3) for rw in (1, h - l, h - l + 2, w, w + 3) if rw >= 1])
 
 
 def _bits(cls_name):
